@@ -335,6 +335,13 @@ def _literal_items(it):
         return [(k,) for k in d.keys] if it.func.attr == "keys" else [(v,) for v in d.values]
     if isinstance(it, ast.Dict) and all(isinstance(k, ast.Constant) for k in it.keys):
         return [(k,) for k in it.keys]
+    if isinstance(it, ast.Call) and isinstance(it.func, ast.Name) and it.func.id == "zip" and not it.keywords and len(it.args) >= 2 \
+            and all(isinstance(a, (ast.Tuple, ast.List)) and a.elts and len(a.elts) == len(it.args[0].elts) for a in it.args):
+        # zip(("a", "b"), (x, y)): pairs of plain values (constants, names, attribute reads)
+        def plain(e):
+            return isinstance(e, (ast.Constant, ast.Name)) or (isinstance(e, ast.Attribute) and plain(e.value))
+        if all(plain(e) for a in it.args for e in a.elts):
+            return [tuple(a.elts[k] for a in it.args) for k in range(len(it.args[0].elts))]
     if isinstance(it, (ast.Tuple, ast.List)) and it.elts:
         if all(isinstance(e, ast.Constant) for e in it.elts):
             return [(e,) for e in it.elts]
@@ -448,6 +455,5 @@ def inline_free_helpers(tree):
         total = counter[0]
         if n_round == 0:
             break
-    if total:
-        unroll_literal_loops(tree)
+    unroll_literal_loops(tree)
     return total
